@@ -318,6 +318,37 @@ fn k20_alias_result() {
 //@ prop: C20
 //@ family: K20-catalogue
 //@ tier: quick
+//@ functions: TypeAlias::visit_with, TypeRef::visit_with (ResultType arm descending into its success type)
+//@ inst: recording Visitor; hand-built TypeAlias of Result<Sequence<E>, F> (E, F unresolved references)
+//@ inputs: is_optional of the success type
+//@ oracle: recorded == [alias, its type, success type, element type nested inside the success type, failure type], each by address, nothing else: the success type is descended into before the failure type is presented
+//@ bound: unwind 4; nesting depth 2
+//@ timeout: 900
+#[kani::proof]
+#[kani::unwind(4)]
+fn k20_alias_result_of_seq() {
+    let inner_seq = OwnedPtr::new(Sequence { element_type: unpatched() });
+    let mut success = patched(upcast_weak_as!(inner_seq.downgrade(), dyn Type));
+    success.is_optional = kani::any();
+    let res = OwnedPtr::new(ResultType { success_type: success, failure_type: unpatched() });
+    let a = alias_of(patched(upcast_weak_as!(res.downgrade(), dyn Type)));
+    let mut r = Rec::new();
+    a.visit_with(&mut r);
+    let rr = res.borrow();
+    let s = inner_seq.borrow();
+    kani::cover!(rr.success_type.is_optional, "optional success type reachable");
+    assert!(r.n == 5, "exactly alias + 4 type references");
+    assert!(r.is(0, ALIAS, &a) && r.is(1, TYPEREF, &a.underlying), "alias, then its type");
+    assert!(r.is(2, TYPEREF, &rr.success_type) && r.is(3, TYPEREF, &s.element_type), "success type, then the element type nested inside it");
+    assert!(r.is(4, TYPEREF, &rr.failure_type), "the failure type comes after everything of the success type");
+    core::mem::forget(a);
+    core::mem::forget(res);
+    core::mem::forget(inner_seq);
+}
+
+//@ prop: C20
+//@ family: K20-catalogue
+//@ tier: quick
 //@ functions: TypeAlias::visit_with, TypeRef::visit_with (Dictionary and Sequence arms)
 //@ inst: recording Visitor; hand-built TypeAlias of Dictionary<K, Sequence<E>> (K, E unresolved references); optionality of the value type symbolic
 //@ inputs: is_optional of the value type
